@@ -29,7 +29,7 @@ ASSUMPTIONS = ['OpenROADM NF judged on uniform grids only (the model assumes per
                'with tilt or gain ripple the total gain is only required within the error bound of the single secant step (h^2/8*ln10/10*Var(dgt), x2; documented '
                'in the implementation); flat gain within 1e-9 dB',
                'reference NF models written from docs/amplifier_models_description.rst and the two-coil operator model']
-REQUIRED_COUNTERS = {'crossings': 100, 'ase_checks': 100, 'gain_clamp_checks': 100, 'saturated_crossings': 10,
+REQUIRED_COUNTERS = {'crossings': 100, 'crossings_of_a_used_object': 50, 'ase_checks': 100, 'gain_clamp_checks': 100, 'saturated_crossings': 10,
                      'nf_law_sweeps': 5, 'band_filter_checks': 10}
 CASE_TIMEOUT = {'quick': 120, 'thorough': 300}
 
@@ -115,10 +115,15 @@ def nf_ripple_at(e_lib, adv, eq_amp, freqs):
     return np.interp(freqs, grid, rip)
 
 
-def cross_and_check(ctx, rng, ej, equipment, extra, name, *, carriers, uniform, operational, prior_noise):
+def cross_and_check(ctx, rng, ej, equipment, extra, name, *, carriers, uniform, operational, prior_noise, amp=None):
+    """One monitored crossing.  `amp`: an amplifier object that has already been crossed (its effective gain then is
+    whatever the previous crossing left: the set gain of this crossing).  Returns the amplifier object."""
     eqa = equipment['Edfa'][name]
     model, e_lib = model_for(ej, name, extra)
-    amp = make_amp(equipment, name, operational)
+    if amp is None:
+        amp = make_amp(equipment, name, operational)
+    else:
+        ctx.count('crossings_of_a_used_object')
     si = make_si(carriers)
     if prior_noise:
         si.add_ase(si.pch * np.array([10 ** rng.uniform(-5, -1.5) for _ in carriers]))
@@ -139,7 +144,7 @@ def cross_and_check(ctx, rng, ej, equipment, extra, name, *, carriers, uniform, 
     if not np.array_equal(a.frequency, b.frequency):
         ctx.violation('in-band-channel-lost', f'{name}: channel set changed although all channels are in band',
                       {'in': b.frequency[:6], 'out': a.frequency[:6]})
-        return
+        return amp
     pin_w = b.pch * vin
     pin_db = 10 * np.log10(pin_w.sum() * 1e3)
     p_max = model.p_max()
@@ -153,7 +158,7 @@ def cross_and_check(ctx, rng, ej, equipment, extra, name, *, carriers, uniform, 
         ctx.violation('effective-gain', f'{name}: effective gain {post["effective_gain"]:.6f} dB, expected min(set '
                       f'{set_gain}, p_max {p_max} - pin {pin_db:.4f}) = {exp_gain:.6f}',
                       {'operational': operational, 'pin_db': pin_db})
-        return
+        return amp
     # (2) per-channel signal-path gain and total gain
     sig_in = b.pch * b.sr * vin
     sig_out = a.pch * a.sr
@@ -228,6 +233,7 @@ def cross_and_check(ctx, rng, ej, equipment, extra, name, *, carriers, uniform, 
     if not ctx.samples:
         ctx.sample({'model': e_lib, 'operational': operational, 'channels': int(a.n), 'pin_dbm': float(pin_db),
                     'effective_gain': float(exp_gain), 'saturated': bool(saturated)})
+    return amp
 
 
 def run_cross(case, ctx, synth=False):
@@ -254,8 +260,21 @@ def run_cross(case, ctx, synth=False):
         carriers, uniform = gen_load(rng, eqa.f_min, eqa.f_max)
         if not carriers:
             continue
-        cross_and_check(ctx, rng, ej, equipment, extra, name, carriers=carriers, uniform=uniform,
-                        operational=operational, prior_noise=rng.random() < 0.4)
+        amp = cross_and_check(ctx, rng, ej, equipment, extra, name, carriers=carriers, uniform=uniform,
+                              operational=operational, prior_noise=rng.random() < 0.4)
+        # the same object is crossed again by every later request of a planning run: other load, other power
+        for _ in range(rng.choice([0, 0, 1, 2])):
+            if ctx.violations:
+                break
+            if rng.random() < 0.5:
+                shift = G.rnd(rng, -12, 6, 2)
+                carriers = [dict(c, tx_power_dbm=c['tx_power_dbm'] + shift) for c in carriers]
+            else:
+                carriers, uniform = gen_load(rng, eqa.f_min, eqa.f_max)
+                if not carriers:
+                    break
+            amp = cross_and_check(ctx, rng, ej, equipment, extra, name, carriers=carriers, uniform=uniform,
+                                  operational=operational, prior_noise=rng.random() < 0.4, amp=amp)
         if ctx.violations:
             ctx.dump.update({'lib_entry': e_lib, 'operational': operational, 'carriers': carriers[:40]})
             return
